@@ -266,6 +266,50 @@ example :
     C14ex.okB r.2 = true ∧
     (varObs r.1 2 "b").map (fun v => (v.isNeutralized, v.default)) = some (true, "5") := by decide +kernel
 
+/-- **`Variable.clone()` always works (repair F-C14b).** In every heap reached from a consistent
+    one by ANY history, every variable object can be rebuilt from its class and its baseline. Hence
+    neutralising or annualising a variable that resolves never raises — however the variable was
+    defined: added, updated in a reform (a class that declares only what it changes), copied by
+    `clone()`, already neutralised or annualised — and the object bound keeps every attribute
+    of the previous one: a neutralised variable yields *its* default. -/
+theorem C14_neutralize_annualize_succeed (st : State) (ops : List Op) (hc : Consistent st.heap)
+    (X : Oid) (name : String) (vid : Oid) (v : VarObj)
+    (hr : resolve (run st ops).heap X name = some vid) (hv : (run st ops).heap.getVar vid = some v) :
+    Consistent (run st ops).heap ∧
+    (neutralizeVar (run st ops).heap X name).2 = .ok () ∧
+    (annualizeVar (run st ops).heap X name).2 = .ok () ∧
+    (∃ w, varObs (neutralizeVar (run st ops).heap X name).1 X name = some w ∧
+        w.isNeutralized = true ∧ w.default = v.default ∧ w.valueType = v.valueType ∧
+        w.entity = v.entity ∧ w.defPeriod = v.defPeriod ∧ w.endDate = v.endDate ∧ w.setInput = v.setInput) ∧
+    (∃ w, varObs (annualizeVar (run st ops).heap X name).1 X name = some w ∧
+        w.isNeutralized = v.isNeutralized ∧ w.default = v.default ∧ w.valueType = v.valueType ∧
+        w.entity = v.entity ∧ w.defPeriod = v.defPeriod ∧ w.endDate = v.endDate ∧ w.setInput = v.setInput ∧
+        w.formulas = v.formulas.map (fun p => (p.1, Fml.annual p.2))) := by
+  have hcons := consistent_run hc ops
+  generalize (run st ops).heap = h at *
+  obtain ⟨c, hcl, _, a2, a3, a4, a5, a6, a7⟩ := hcons vid v hv
+  obtain ⟨s, m, hs, hm, hd⟩ := resolve_some_inv hr
+  have en := neutralizeVar_eq hs hm hd hv hcl
+  have ea := annualizeVar_eq hs hm hd hv hcl
+  refine ⟨hcons, by rw [en], by rw [ea], ?_, ?_⟩
+  · obtain ⟨r1, r2, _⟩ := bindVar_reads hs hm name { c with isNeutralized := true }
+    refine ⟨VarObj.view { c with isNeutralized := true }, ?_, rfl, a3, a2, a4, a5, a6, a7⟩
+    rw [en]
+    unfold varObs
+    rw [r1]; dsimp only; rw [r2]; rfl
+  · obtain ⟨r1, r2, _⟩ := bindVar_reads hs hm name
+      { c with formulas := v.formulas.map (fun p => (p.1, Fml.annual p.2)), isNeutralized := v.isNeutralized }
+    refine ⟨VarObj.view { c with formulas := v.formulas.map (fun p => (p.1, Fml.annual p.2)), isNeutralized := v.isNeutralized },
+      ?_, rfl, a3, a2, a4, a5, a6, a7, rfl⟩
+    rw [ea]
+    unfold varObs
+    rw [r1]; dsimp only; rw [r2]; rfl
+
+example : Consistent C14ex.base.heap := consistent_of_check (by decide +kernel)
+/-- the F-C14b input: a reform that updates `b` (a class declaring one formula only) then neutralises it -/
+example : C14ex.okB (reformSys C14ex.base.heap 2 [.update C14ex.updB, .neutralize "b", .annualize "b"]).2 = true := by
+  decide +kernel
+
 /-! ## Annualised variables -/
 
 /-- **What `annualize_variable` builds**: a new variable object whose dated formulas are the
@@ -434,6 +478,7 @@ end OFCore
 #print axioms OFCore.C14_update_inherits
 #print axioms OFCore.C14_neutralized_ignores_inputs
 #print axioms OFCore.C14_neutralized_default
+#print axioms OFCore.C14_neutralize_annualize_succeed
 #print axioms OFCore.C14_annualized_formula_def
 #print axioms OFCore.C14_annualized_january_partial
 #print axioms OFCore.C14_annualized_counterexample
